@@ -27,6 +27,9 @@ def run(C, R):
         E = C.engine(cfg)
         CG = C.cg(cfg)
         R.configs.append(cfg)
+        from common import constructor_state
+        for _st in STATES:
+            constructor_state(R, C.engine(cfg), C.facts(cfg), _st, {'value': 'none', 'is_fulfilled': ('const', 0), 'waiters': 'empty-queue'}, 'C12.R0')
         from common import wrapper_discipline
         R.floor('C12.W wrapper-paths[%s]' % cfg, wrapper_discipline(C, R, cfg, list(STATES), 'C12.W'), 2)
         for st, mode in STATES.items():
@@ -131,6 +134,22 @@ def run(C, R):
                 elif takes and mode == 'clone':
                     R.fail('C12.R2', [rec['path'], 'broadcast-takes'], 'the broadcast flavour takes the value',
                            where(F, takes[0]))
+            # a receiver parks only when there is no value and the channel is neither fulfilled nor closed
+            for path in paths:
+                if path.exit != 'return' or poll_variant(E, path) != 'Pending':
+                    continue
+                parks = [e for e in path.events if e['k'] == 'qop' and e['op'] == 'add_front']
+                if not parks:
+                    continue
+                ff = const_of(E, path.facts, ('init', (('P', 'self'), FLAG)))
+                kv = E.variant_known(path.facts, ('init', (('P', 'self'), 'value')))
+                if ff == 0 and kv == ('eq', 'None'):
+                    R.ok('C12.R3', '%s|parks: no value, not fulfilled|%s' % (rec['path'], path_cond(E, path)))
+                else:
+                    R.fail('C12.R3', [rec['path'], 'parks-although-decided'],
+                           'a receiver is queued although the path has not established "no value and not fulfilled" '
+                           '(flag=%s slot=%s): send/close already happened and nobody will wake it' % (ff, kv),
+                           where(F, parks[0]), {'trace': trace_summary(path)})
             R.floor('C12.R2 delivery-paths[%s] %s' % (cfg, st), ndel, 1)
             w4_pending_stores_waker(R, E, F, rec, paths, 'C12.R5')
             # R4 close drains (same instance as C11.R2)
